@@ -257,6 +257,22 @@ class C13BuiltinConditions(Bounded):
                 exp = (ALL - want - ({"h"} if "f" in want else set())) if neg else want
                 if got != exp:
                     fail("fn-" + cond["type"], f"field name condition {cond}{' negated' if neg else ''}: item applied to {got if isinstance(got, str) else sorted(got)}, expected {sorted(exp)}", [cond, neg])
+        # ---- two items (also of different pipelines) whose condition EXPRESSIONS have the same text but whose identifiers mean different conditions
+        def two_items(order):
+            mk = lambda pfx, cat: {"id": pfx, "type": "field_name_prefix", "prefix": pfx, "rule_cond_expr": "os and not ex", "rule_conditions": {"os": {"type": "logsource", "category": cat}, "ex": {"type": "logsource", "product": "zz"}}}
+            its = {"A_": mk("A_", "c"), "B_": mk("B_", "other")}
+            pls = [ProcessingPipeline.from_dict({"transformations": [its[k]]}) for k in order]       # constructed in this order ...
+            q = TextQueryTestBackend(pls[0] + pls[1] if order == ("A_", "B_") else pls[1] + pls[0]).convert(SigmaCollection.from_dicts([copy.deepcopy(RULE2)]))[0]
+            return q
+        for order in (("A_", "B_"), ("B_", "A_")):
+            ev += 1
+            nontriv += 1
+            try:
+                q = two_items(order)
+            except Exception as e:
+                q = f"{type(e).__name__}: {e}"
+            if "A_f" not in q or "B_" in q:
+                fail("same-expression", f"two items with the expression text 'os and not ex' (A_: os = category c, holds; B_: os = category other, does not), constructed in the order {order}: query {q!r} - expected only the prefix A_", [list(order)])
         # ---- match_value on values whose class is a subclass of the plain value types (case-sensitive strings, timestamp parts)
         def run3(item):
             import re as _re
